@@ -114,9 +114,9 @@ Definition w_writeline (st : wstate) (r : grec) : res wstate :=
 (* close() in write mode = _write_closing_info, split at its file operations:
    OpCount : the count check / seek + back-fill of the count
    OpSeek  : seek_atom(natoms)
-   OpBox   : write(dump_lattice_gro(box))
-   OpNl    : write('\n')                                                            *)
-Inductive wop := OpRec (r : grec) | OpCount | OpSeek | OpBox | OpNl.
+   OpBox   : write(dump_lattice_gro(box) + '\n')   - ONE write: no state of the file object
+             lies between the box text and its end of line                          *)
+Inductive wop := OpRec (r : grec) | OpCount | OpSeek | OpBox.
 
 Definition w_count (st : wstate) : res wstate :=
   match wnat st with
@@ -144,7 +144,7 @@ Definition w_seek (st : wstate) : res wstate :=
   end.
 
 Definition w_box (st : wstate) : res wstate :=
-  let* line := dump_lattice_gro (wbox st) in Ok (fwrite st line).
+  let* line := dump_lattice_gro (wbox st) in Ok (fwrite st (line ++ [NL])).
 
 Definition w_step (st : wstate) (o : wop) : res wstate :=
   match o with
@@ -154,8 +154,7 @@ Definition w_step (st : wstate) (o : wop) : res wstate :=
     match o with
     | OpCount => w_count st
     | OpSeek => w_seek st
-    | OpBox => w_box st
-    | _ => Ok (fwrite st [NL])
+    | _ => w_box st
     end
   end.
 
@@ -165,7 +164,7 @@ Fixpoint w_run (st : wstate) (ops : list wop) : res wstate :=
   | o :: r => let* st' := w_step st o in w_run st' r
   end.
 
-Definition close_ops : list wop := [OpCount; OpSeek; OpBox; OpNl].
+Definition close_ops : list wop := [OpCount; OpSeek; OpBox].
 Definition write_ops (recs : list grec) : list wop := map OpRec recs ++ close_ops.
 
 (* the bytes on disk after the given operations (every operation flushed) *)
